@@ -58,7 +58,10 @@ def main():
             shutil.copy(os.path.join(src, f), os.path.join(wt, demo_dir, f))
         mod = module_of(wt, os.path.join(demo_dir, "x.go"))
         pkg = "./" + os.path.relpath(os.path.join(wt, demo_dir), mod)
-        demo_cmd = f"go test -vet=off -count=1 -run 'TestSeed' {pkg}"
+        names = []
+        for f in demo_files:
+            names += re.findall(r"^func (Test\w+)\(", open(os.path.join(src, f)).read(), re.M)
+        demo_cmd = f"go test -vet=off -count=1 -run '^({'|'.join(names)})$' {pkg}"
         rc, o = sh(demo_cmd, cwd=mod)
         log["demo_pristine"] = "pass" if rc == 0 else "FAIL"
         log["demo_cmd"] = f"(cd <module {os.path.relpath(mod, wt)}>) {demo_cmd}"
